@@ -290,7 +290,7 @@ def strip_suffix(expr, suf):
 def T(s, line=None):
     return [Tok(x, line) for x in s.split()]
 
-def rewrite_loops(toks, user_iters=()):
+def rewrite_loops(toks, user_iters=(), force_r1b=()):
     """R1 family, canonical output; loop ordinal k counts every `for` of the function in source order."""
     n_loop = [0]
     def rw(ts):
@@ -324,7 +324,7 @@ def rewrite_loops(toks, user_iters=()):
                     res += T('let mut %s = 0 ; while %s <' % (I, I), L) + itm + T('. len ( ) { let', L) + pat + T('= & mut', L) + itm + T('[ %s ] ;' % I, L) + body + T('%s += 1 ; }' % I, L)
                     i = e + 1; continue
                 if is_range:
-                    if 'continue' in body and pat != ['_']:
+                    if ('continue' in body or int(q) in force_r1b) and pat != ['_']:
                         # R1b: for i in A..B { .. continue .. }
                         dd = 0
                         for z, tk in enumerate(expr):
@@ -449,13 +449,13 @@ def real_pipeline(ts, unit, path):
     """everything that is done to the real tokens of one function before they are compared / emitted"""
     ts = normalize(ts)
     ts = simple_rewrites(ts, unit.get('rewrite_opts'))
-    if unit.get('r9', True): ts = rewrite_ref_cmp(ts)
+    if unit.get('r9', False): ts = rewrite_ref_cmp(ts)
     rules = [r for r in unit.get('expr_rewrites', []) if r.get('fn') in (None, path, '*')]
     pre = [r for r in rules if r.get('stage') == 'pre']
     post = [r for r in rules if r.get('stage') != 'pre']
     ts = apply_expr_rewrites(ts, pre)
     ui = [[str(x) for x in tokens(u)] for u in unit.get('user_iters', [])]
-    ts = rewrite_loops(ts, ui)
+    ts = rewrite_loops(ts, ui, tuple(unit.get('force_r1b', {}).get(path, [])))
     ts = apply_expr_rewrites(ts, post)
     return ts
 
@@ -556,7 +556,7 @@ def drop_ghost_else(E, G):
     return out_e, out_g
 
 def erase_fn(ts):
-    E, G = erase(ts)
+    E, G = erase(normalize(ts))
     return drop_ghost_else(E, G)
 
 def strs(ts):
